@@ -55,6 +55,8 @@ def cases(tier, seed):
             out.append({'kind': 'nested', 'seed': case_seed('C06', seed, 'nested', name, rep), 'params': {'prog': name}})
     for i in range(60 if tier == 'quick' else 40000):
         out.append({'kind': 'hist', 'seed': case_seed('C06', seed, 'comp', i), 'params': {'prog': 'comp', 'len': 6 if tier == 'quick' else 10}})
+    for i in range(6 if tier == 'quick' else 60):
+        out.append({'kind': 'writes_input', 'seed': case_seed('C06', seed, 'writes_input', i), 'params': {'which': i}})
     return out
 
 
@@ -269,11 +271,61 @@ def _nested(ctx, p, rng):
     ctx.ok('evaluated-while-recording-another', ('nested', name, how, where))
 
 
+def _writes_input(ctx, p, rng):
+    """a program that assigns into its own argument (x[0] = x[1] * x[2], x[1:3] = sin(x[2:4])): ONE forward evaluation, then the Jacobian
+    row by row - one reverse sweep per row, in any order, some rows twice - each row must be the analytic one and the value the graph
+    holds for the argument must be the same before and after every sweep"""
+    from algopy import CGraph, Function
+    n = 4
+    D, P = [(1, 1), (2, 1), (1, 2), (2, 2)][p['which'] % 4]
+    form = p['which'] % 2
+    cg = CGraph()
+    x = Function(np.round(rng.normal(size=n), 2) + 0.5)
+    if form == 0:
+        x[0] = x[1] * x[2]
+        jac = lambda a: np.array([[0, 2 * a[1] * a[2] ** 2, 2 * a[2] * a[1] ** 2, 0], [0, 2 * a[1], 0, 0], [0, 0, 2 * a[2], 0], [0, 0, 0, 2 * a[3]]])
+    else:
+        x[1:3] = algopy.sin(x[2:4])
+        jac = lambda a: np.array([[2 * a[0], 0, 0, 0], [0, 0, 2 * np.sin(a[2]) * np.cos(a[2]), 0], [0, 0, 0, 2 * np.sin(a[3]) * np.cos(a[3])], [0, 0, 0, 2 * a[3]]])
+    y = x * x
+    cg.trace_off(); cg.independentFunctionList = [x]; cg.dependentFunctionList = [y]
+    for rnd in range(2):
+        a = np.round(rng.normal(size=n), 2) + 0.25
+        X = np.zeros((D, P, n)); X[0] = a
+        try:
+            cg.pushforward([UTPM(X.copy())])
+        except Exception as e:
+            ctx.violation('writes-input:forward-raises', {'error': repr(e)[:160]}); return
+        held = np.array(x.x.data, copy=True)
+        J = jac(a)
+        rows = list(rng.permutation(n)) + [int(rng.integers(n))]
+        for k, m in enumerate(rows):
+            ybar = np.zeros((D, P, n)); ybar[0, :, m] = 1.0
+            try:
+                cg.pullback([UTPM(ybar)])
+            except Exception as e:
+                ctx.violation('writes-input:sweep-raises', {'sweep': k, 'error': repr(e)[:160]}); return
+            got = np.array(x.xbar.data[0], copy=True)
+            if not np.allclose(got, np.broadcast_to(J[m], got.shape), rtol=1e-12, atol=1e-12):
+                ctx.violation('writes-input:row-of-jacobian:%s' % ('first-sweep' if k == 0 else 'later-sweep'),
+                              {'form': ['x[0] = x[1]*x[2]', 'x[1:3] = sin(x[2:4])'][form], 'sweep': k, 'row': int(m), 'got': got[0].tolist(), 'want': J[m].tolist()}); return
+            if not np.array_equal(x.x.data, held):
+                ctx.violation('writes-input:value-held-by-graph-changed-by-sweep', {'sweep': k, 'row': int(m)}); return
+        ctx.ok('writes-input', ('writes_input', form, D, P, rnd))
+
+
 def run_case(ctx, case):
     rng = gen.rng_of(case)
     p = case['params']
     if case['kind'] == 'nested':
         return _nested(ctx, p, rng)
+    if case['kind'] == 'writes_input':
+        from .. import monitors
+        monitors.PROGRAM_WRITES_INPUT[0] = True
+        try:
+            return _writes_input(ctx, p, rng)
+        finally:
+            monitors.PROGRAM_WRITES_INPUT[0] = False
     name, shape, dom, g, n = _build(p, rng)
     bs = gen.base_sampler(dom)
 
